@@ -9,7 +9,7 @@ CLAUSES = ["C07.bounds", "C07.conserve", "C07.order", "C07.nostrand", "C07.norai
 RULE = ("every history of <= D operations {put(x), get(..), cancel own pending request, tick, flush} issued to 3 puppet "
         "processes (one outstanding request each; operations between two ticks happen inside one instant; legality from what "
         "the puppet has observed) on Container (capacity 2|3, init 0|1|cap, amounts 1..3), Store (capacity 1|2|inf), "
-        "PriorityStore (priorities 1|2 with ties), FilterStore (filters any, ==a, ==b, never), plus user-style scripts "
+        "PriorityStore (priorities 1|2 with ties), FilterStore (filters any, ==a, ==b, never), plus every permutation of 6/7 distinct priorities put into an unbounded PriorityStore under every put/get interleaving, plus user-style scripts "
         "`yield store.put(x) | timeout` / `yield container.get(n) | timeout` with cancel on timeout; non-trivial = a request "
         "was pending at some settled point or a request was cancelled; distinct = distinct (history, grant log)")
 ASSUMPTIONS = [
@@ -25,7 +25,7 @@ def plan(tier, seed):
     quick = tier == "quick"
     d = 5 if quick else 6
     cfgs = []
-    for (cap, init, amounts) in ((2, 0, [1, 2]), (2, 2, [1, 2]), (3, 1, [1, 3]), (3, 0, [2, 3])):
+    for (cap, init, amounts) in ((2, 0, [1, 2]), (2, 2, [1, 2]), (3, 1, [1, 3]), (3, 0, [2, 3]), (3, 3, [1, 2, 3])):
         cfgs.append(dict(kind="container", cap=cap, init=init, amounts=amounts, depth=d))
     if not quick:
         cfgs.append(dict(kind="container", cap=3, init=1, amounts=[1, 2, 3], depth=d - 1))
@@ -36,6 +36,8 @@ def plan(tier, seed):
         cfgs.append(dict(kind="fstore", cap=cap, depth=d - 1 if quick else d))
     for kind in ("container", "store"):
         cfgs.append(dict(kind=kind, script=1, cap=2, n=3))
+    # PriorityStore ordering with many distinct priorities: every permutation of k priorities x every put/get interleaving
+    cfgs.append(dict(kind="pstore", perm=1, k=6 if quick else 7))
     return {"cfgs": cfgs, "budget": None, "bound": "histories of <=%d operations (Store %d, FilterStore %d) on 3 puppets; scripts with 3 processes" % (d, d + 1, d - 1 if quick else d)}
 
 
@@ -163,6 +165,9 @@ class Ref:
 
 def execute(ch, cfg):
     res = Result()
+    if cfg.get("perm"):
+        res.digest = exec_perm(ch, cfg, res)
+        return res
     if cfg.get("script"):
         res.digest = exec_script(ch, cfg, res)
     else:
@@ -499,3 +504,55 @@ def strand_of(r, kind, cap):
         elif len(r.items) > 0:
             return "pending-get-could-be-served"
     return None
+
+
+def exec_perm(ch, cfg, res):
+    """k distinct priorities are put in a chosen order into an unbounded PriorityStore, gets interleaved at chosen points:
+    every get must return the smallest priority present"""
+    k = cfg["k"]
+    env = Environment()
+    st = PriorityStore(env)
+    left = list(range(1, k + 1))
+    held = []
+    got = []
+    seq = []
+    puts = gets = 0
+    tag = "PriorityStore(cap=None,many-priorities)"
+    res.ev("C07.order")
+    try:
+        while puts < k or gets < k:
+            opts = []
+            if puts < k:
+                opts += [("put", p) for p in left]
+            if gets < puts:
+                opts.append(("get",))
+            c = ch.choose(len(opts), lambda c: "%s" % (opts[c],), free=True)
+            op = opts[c]
+            seq.append(op)
+            if op[0] == "put":
+                left.remove(op[1])
+                held.append(op[1])
+                puts += 1
+                st.put(PriorityItem(op[1], "item%d" % op[1]))
+            else:
+                gets += 1
+                g = st.get()
+                while env.peek() <= env.now:
+                    env.step()
+                if not g.triggered:
+                    res.bad("C07.nostrand", tag + ":pending-get-could-be-served", "after %r" % seq)
+                    return tuple(seq)
+                v = g.value.priority
+                want = min(held)
+                if len(held) >= 4:
+                    res.nontrivial = True
+                if v != want:
+                    res.bad("C07.order", tag + ":get-did-not-return-the-smallest-item", "after %r: got %r, smallest present %r (held %r)" % (seq, v, want, sorted(held)))
+                    return tuple(seq)
+                held.remove(v)
+                got.append(v)
+            while env.peek() <= env.now:
+                env.step()
+    except BaseException as e:  # noqa
+        res.bad("C07.noraise", "%s:%s" % (tag, type(e).__name__), "after %r: %r" % (seq, e))
+    return tuple(seq)
